@@ -228,11 +228,67 @@ def rhs_table(A, toks, acts, pred):
     return [r if r is not None else [] for r in rhs]
 
 
+def rule_heads(ysrc):
+    """lhs name of every production of a .y file, in file order (production 1 first).  DISPLAY ONLY
+    (names of the nonterminals in the printed grammar); nothing in the proofs depends on it."""
+    parts = ysrc.split("\n%%")
+    if len(parts) < 2:
+        return []
+    body = parts[1]
+    heads, i, n, depth = [], 0, len(body), 0
+    cur = None
+    expect_head = True
+    tok = ""
+    while i < n:
+        c = body[i]
+        if body.startswith("/*", i):
+            j = body.find("*/", i + 2)
+            i = n if j < 0 else j + 2
+            continue
+        if body.startswith("//", i):
+            j = body.find("\n", i)
+            i = n if j < 0 else j
+            continue
+        if c in "\"'`":
+            j = i + 1
+            while j < n and body[j] != c:
+                j += 2 if body[j] == "\\" and c != "`" else 1
+            i = j + 1
+            continue
+        if c == "{":
+            depth += 1
+        elif c == "}":
+            depth -= 1
+        elif depth == 0:
+            if c.isalnum() or c == "_":
+                j = i
+                while j < n and (body[j].isalnum() or body[j] == "_"):
+                    j += 1
+                word = body[i:j]
+                k = j
+                while k < n and body[k] in " \t\r\n":
+                    k += 1
+                if expect_head and k < n and body[k] == ":":
+                    cur = word
+                    heads.append(cur)
+                    expect_head = False
+                    i = k + 1
+                    continue
+                i = j
+                continue
+            if c == "|" and cur is not None:
+                heads.append(cur)
+            elif c == ";":
+                expect_head = True
+        i += 1
+    return heads
+
+
 def zlist(l):
     return "[" + "; ".join(("(%d)" % x) if x < 0 else str(x) for x in l) + "]"
 
 
-def generate(src, digest=None):
+def generate(src, digest=None, ysrc=None):
     T = parse_tables(src)
     A = Automaton(T)
     toks, acts, edges, pred = closure(A)
@@ -266,8 +322,20 @@ def generate(src, digest=None):
     rhs = rhs_table(A, toks, acts, pred)
     out.append("Definition tRhs : list (list Z) := [%s]." % "; ".join(zlist(r) for r in rhs))
     out.append("")
+    names = {}
+    heads = rule_heads(ysrc) if ysrc else []
+    if len(heads) == len(T["R1"]) - 1:
+        for p, h in enumerate(heads, 1):
+            names.setdefault(T["R1"][p], h)
+    out.append("(* DISPLAY ONLY: names of the nonterminals (rule heads of parser.y in file order), used to")
+    out.append("   print the recovered grammar; no theorem depends on it *)")
+    out.append("Definition tNtNames : list (Z * string) := [%s]." % "; ".join('(%d, "%s")' % (k, v) for k, v in sorted(names.items())))
+    out.append("")
     return "\n".join(out) + "\n"
 
 
 if __name__ == "__main__":
-    sys.stdout.write(generate(open(sys.argv[1]).read(), sys.argv[2] if len(sys.argv) > 2 else None))
+    import os
+    yp = sys.argv[1][:-3] if sys.argv[1].endswith(".y.go") else None
+    ysrc = open(yp).read() if yp and os.path.exists(yp) else None
+    sys.stdout.write(generate(open(sys.argv[1]).read(), sys.argv[2] if len(sys.argv) > 2 else None, ysrc))
